@@ -1,51 +1,87 @@
 import CollectionsC.Proofs.StackMem
-/-! # C14 (stack part) — `CC_Stack` uses only its configured allocators
+/-! # C14 (stack part) — `CC_Stack` uses only the allocator triple it was given
 
-Statements only (helpers: `Proofs/StackMem.lean`).  The stack header, the wrapped array and the result
-of `cc_stack_filter` (Q3) are all allocated and released through the configured triple: `Mem.libc` is
-never changed, and the behaviour depends on the ledger only through its schedule of refusals. -/
+Statements only (helpers: `Proofs/StackMem.lean`).  `Stack.triple` is the triple the header copied from
+its configuration; `cc_stack_new_conf` hands the same configuration to `cc_array_new_conf`, so header and
+array share it (`Stack.Coh`); `cc_stack_destroy`/`destroy_cb` release the header through the stack's own
+`mem_free` (Q2); `cc_stack_filter` configures its result with the *source's* triple (Q3) — in the model
+`Stack.new … s.triple`; had it called the default constructor the model would say `.libc` and
+`filter_uses_only_own_triple` would be false. -/
 namespace CC.Properties.C14Stack
 open CC
 open CC.Spec.Seq (SOp Out)
 
-theorem libc_invariant (s : Stack) (op : SOp) (m : Mem) (hinv : s.Inv) : (s.step op m).2.2.libc = m.libc :=
-  (Stack.step_led s op m hinv).1
+/-- a stack on the configured triple never touches the C-library counters -/
+theorem conf_uses_only_conf (s : Stack) (op : SOp) (m : Mem) (hinv : s.Inv) (ht : s.v.triple = .conf) :
+    (s.step op m).2.2.libc = m.libc ∧ (s.step op m).2.2.liveLibc = m.liveLibc ∧
+    (s.step op m).2.2.lalloc = m.lalloc ∧ (s.step op m).2.2.lfree = m.lfree := by
+  have := (Stack.step_led s op m hinv).2.1
+  rw [ht] at this
+  exact ⟨this.2.1, this.1, this.2.2.1, this.2.2.2⟩
 
-theorem history_libc_invariant (ops : List SOp) (s : Stack) (m : Mem) (hinv : s.Inv) :
-    (s.run ops m).2.2.libc = m.libc := (Stack.run_led ops s m hinv).1
+/-- a stack on the C-library triple (`cc_stack_new`) never touches the configured allocator, does not
+consume its schedule, and is never refused -/
+theorem default_uses_only_libc (s : Stack) (op : SOp) (m : Mem) (hinv : s.Inv) (ht : s.v.triple = .libc) :
+    (s.step op m).2.2.live = m.live ∧ (s.step op m).2.2.nalloc = m.nalloc ∧
+    (s.step op m).2.2.nfree = m.nfree ∧ (s.step op m).2.2.sched = m.sched ∧
+    (s.step op m).2.2.nrefused = m.nrefused ∧ (s.step op m).1.st ≠ some .errAlloc := by
+  obtain ⟨_, l2, l3, l4⟩ := Stack.step_led s op m hinv
+  rw [ht] at l2
+  have hr := l4 ht
+  refine ⟨l2.1, l2.2.1, l2.2.2.1, l2.2.2.2, ?_, by simpa using hr⟩
+  rw [hr] at l3; simpa using l3
 
-/-- wrapped construction, destruction (header included — Q2) and `cc_stack_filter` (Q3) -/
-theorem lifecycle_libc_invariant (s : Stack) (cap : Nat) (grow dgrow : Nat → Nat) (exGe dexGe : Nat → Bool)
-    (p : Nat → Bool) (m : Mem) (hinv : s.Inv) :
-    (Stack.new cap grow exGe m).2.2.libc = m.libc ∧ (s.destroy m).libc = m.libc ∧
-    (s.filter p dgrow dexGe m).2.2.2.libc = m.libc :=
-  ⟨(Stack.new_led cap grow exGe m).1, (Stack.destroy_led s m).1, (Stack.filter_led p s dgrow dexGe m hinv).1⟩
+theorem history_uses_only_own_triple (ops : List SOp) (s : Stack) (m : Mem) (hinv : s.Inv) :
+    Arr.Foreign s.v.triple m (s.run ops m).2.2 ∧ (s.run ops m).2.1.v.triple = s.v.triple ∧
+    (s.run ops m).2.1.triple = s.triple :=
+  ⟨(Stack.run_led ops s m hinv).2.1, (Stack.run_led ops s m hinv).2.2.2.1, (Stack.run_led ops s m hinv).2.2.2.2⟩
+
+/-- wrapped construction (header and inner array through `t`), destruction (header through the
+stack's own triple — Q2) and `cc_stack_filter` (everything through the source's triple — Q3) -/
+theorem lifecycle_uses_only_own_triple (s : Stack) (cap : Nat) (grow dgrow : Nat → Nat) (exGe dexGe : Nat → Bool)
+    (p : Nat → Bool) (m : Mem) (t : Triple) (hc : s.Coh) :
+    Arr.Foreign t m (Stack.new cap grow exGe m t).2.2 ∧ Arr.Foreign s.triple m (s.destroy m) ∧
+    Arr.Foreign s.triple m (s.filter p dgrow dexGe m).2.2.2 :=
+  ⟨(Stack.new_led cap grow exGe m t).2.1, Stack.destroy_foreign s m hc, (Stack.filter_led p s dgrow dexGe m).2.1⟩
+
+/-- **the triple is inherited**: the constructor stores the triple it was given in header and array,
+and the stack built by `cc_stack_filter` carries the source's triple in both -/
+theorem derived_inherits_triple (s : Stack) (cap : Nat) (grow dgrow : Nat → Nat) (exGe dexGe : Nat → Bool)
+    (p : Nat → Bool) (m : Mem) (t : Triple) (r : Stack) :
+    ((Stack.new cap grow exGe m t).2.1 = some r → r.triple = t ∧ r.v.triple = t) ∧
+    ((s.filter p dgrow dexGe m).2.1 = some r → r.triple = s.triple ∧ r.v.triple = s.triple) :=
+  ⟨Stack.new_triple cap grow exGe m t r, Stack.filter_triple p s dgrow dexGe m r⟩
 
 theorem allocator_independent (s : Stack) (op : SOp) (m1 m2 : Mem) (hinv : s.Inv) (h : m1.sched = m2.sched) :
     (s.step op m1).1 = (s.step op m2).1 ∧ (s.step op m1).2.1 = (s.step op m2).2.1 ∧
-    (s.step op m1).2.2.sched = (s.step op m2).2.2.sched := by
-  obtain ⟨e1, e2, e3⟩ := Stack.step_indep s op m1 m2 hinv h
-  exact ⟨e1, Stack.ext_v e2, e3⟩
+    (s.step op m1).2.2.sched = (s.step op m2).2.2.sched := Stack.step_indep s op m1 m2 hinv h
 
 theorem history_allocator_independent (ops : List SOp) (s : Stack) (m1 m2 : Mem) (hinv : s.Inv)
     (h : m1.sched = m2.sched) :
     (s.run ops m1).1 = (s.run ops m2).1 ∧ (s.run ops m1).2.1 = (s.run ops m2).2.1 :=
   ⟨(Stack.run_indep ops s m1 m2 hinv h).1, (Stack.run_indep ops s m1 m2 hinv h).2.1⟩
 
-theorem new_allocator_independent (cap : Nat) (grow : Nat → Nat) (exGe : Nat → Bool) (m1 m2 : Mem)
+theorem new_allocator_independent (cap : Nat) (grow : Nat → Nat) (exGe : Nat → Bool) (m1 m2 : Mem) (t : Triple)
     (h : m1.sched = m2.sched) :
-    (Stack.new cap grow exGe m1).1 = (Stack.new cap grow exGe m2).1 ∧
-    (Stack.new cap grow exGe m1).2.1.map (·.v) = (Stack.new cap grow exGe m2).2.1.map (·.v) := by
-  obtain ⟨e1, e2, _⟩ := Stack.new_indep cap grow exGe m1 m2 h
-  exact ⟨e1, e2⟩
+    (Stack.new cap grow exGe m1 t).1 = (Stack.new cap grow exGe m2 t).1 ∧
+    (Stack.new cap grow exGe m1 t).2.1 = (Stack.new cap grow exGe m2 t).2.1 :=
+  ⟨(Stack.new_indep cap grow exGe m1 m2 t h).1, (Stack.new_indep cap grow exGe m1 m2 t h).2.1⟩
 
-/-- `cc_stack_filter` builds the same result (or none) under the same schedule: the result's blocks
-come from the source's triple (Q3) -/
+/-- `cc_stack_filter` builds the same result (or none) under the same schedule -/
 theorem filter_allocator_independent (p : Nat → Bool) (s : Stack) (dgrow : Nat → Nat) (dexGe : Nat → Bool)
     (m1 m2 : Mem) (h : m1.sched = m2.sched) :
     (s.filter p dgrow dexGe m1).1 = (s.filter p dgrow dexGe m2).1 ∧
-    (s.filter p dgrow dexGe m1).2.1 = (s.filter p dgrow dexGe m2).2.1 := by
-  obtain ⟨e1, e2, _⟩ := Stack.filter_indep p s dgrow dexGe m1 m2 h
-  exact ⟨e1, e2⟩
+    (s.filter p dgrow dexGe m1).2.1 = (s.filter p dgrow dexGe m2).2.1 :=
+  ⟨(Stack.filter_indep p s dgrow dexGe m1 m2 h).1, (Stack.filter_indep p s dgrow dexGe m1 m2 h).2.1⟩
+
+/-! Non-vacuity / falsifiability: filtering a stack that lives on the C library builds the result on
+the C library as well — three C-library allocations, no configured one, and a schedule that would
+refuse the configured allocator is not even consulted. -/
+example :
+    let s : Stack := ⟨Arr.mk 3 4 [2, 3, 4, 0] (fun c => 2 * c) .libc, .libc⟩
+    let f := s.filter (fun v => v % 2 == 0) (fun c => 2 * c) (fun _ => false) { liveLibc := 3, sched := [true, true] }
+    s.Inv ∧ s.Coh ∧ f.1 = .ok ∧ (f.2.1.map (·.abs)) = some [2, 4] ∧ (f.2.1.map (·.triple)) = some .libc ∧
+    f.2.2.2.lalloc = 3 ∧ f.2.2.2.liveLibc = 6 ∧ f.2.2.2.nalloc = 0 ∧ f.2.2.2.live = 0 ∧ f.2.2.2.sched = [true, true] := by
+  decide
 
 end CC.Properties.C14Stack
